@@ -2,6 +2,7 @@
 """Regenerates the `fixed` list of known_findings.json from /repo's "fix:" commits."""
 import json, subprocess
 PROP = {
+"errors of an inherited field validator ignore":"C11",
 "cache.set_size disables cache invalidation":"C09",
 "union of alternatives of the same JSON type":"C17",
 "fields-set tracking marks fields that were not assigned":"C15",
